@@ -751,6 +751,32 @@ func (e *Env) evalCall(x *ECall) Val {
 	case "isref":
 		a := arg(0)
 		return Val{T: &Term{"((_ is a_ref) " + a.T.S + ")", SBool}, Typ: tb}
+	case "smHas", "smGet": // contents of the sync.Map held in a package-level variable
+		id, ok := x.Args[0].(*EIdent)
+		if !ok {
+			e.fail(x.P, "%s: first argument must name a package-level sync.Map", x.Fun)
+		}
+		if o, ok := u.tpkg.Scope().Lookup(id.Name).(*types.Var); !ok || u.typeName(o.Type()) != "sync.Map" {
+			e.fail(x.P, "%s: %s is not a package-level sync.Map", x.Fun, id.Name)
+		}
+		mt := u.syncMapType()
+		ref := fc.syncMapRef(id.Name)
+		k := arg(1)
+		if x.Fun == "smHas" {
+			return Val{T: fc.mapHas(e.heap, mt, ref, k.T), Typ: tb}
+		}
+		return Val{T: fc.mapLookup(e.heap, mt, ref, k.T), Typ: mt.Elem()}
+	case "fnany": // a package function as an interface value (what storing it in an interface gives)
+		id, ok := x.Args[0].(*EIdent)
+		if !ok {
+			e.fail(x.P, "fnany: argument must name a function")
+		}
+		fo, ok := u.tpkg.Scope().Lookup(id.Name).(*types.Func)
+		if !ok {
+			e.fail(x.P, "fnany: no function %s", id.Name)
+		}
+		f := App(SFn, "mk_fn", IntLit(int64(u.funcID(id.Name))), IntLit(0))
+		return Val{T: fc.anyWrap(f, fo.Type())}
 	case "isfn": // the interface value holds a function
 		a := arg(0)
 		return Val{T: &Term{"((_ is a_fn) " + a.T.S + ")", SBool}, Typ: tb}
